@@ -132,6 +132,9 @@ def build(key, variant, i):
           'is_ajax': lambda: b['ajax'], 'jsonify': lambda data, code: refuse(code), 'Callable': object}
     factory = extract('csrf_token_required', ns)
     nxt = lambda *a, **k: ('/next' if b['has_next_url'] else None)
+    if 'default-next-url' in variant:
+        # a handler method of a view with URL parameters, decorated without a next_url
+        return {'env': env, 'call': lambda: factory('streams', optional=optional)(body)(NS(), mps_name='demo')}
     return {'env': env, 'call': lambda: factory('streams', next_url=nxt, optional=optional)(body)()}
 
 
